@@ -49,6 +49,8 @@ type parser struct {
 
 	// comment lines found between a label and the line it belongs to
 	gapComments []sourceLine
+	// a newline has been read since the last label
+	gapAtLineStart bool
 
 	// maps of symbol definitions and references used to verify that each
 	// symbol is defined exactly once and each reference is defined.
@@ -224,11 +226,15 @@ func (p *parser) readMetadata(comment string) {
 
 // skipLabelGap consumes a newline or a comment line that stands between a
 // label and the line it belongs to. Such a comment is not part of the line
-// list, but it may be metadata or an ;assert: it is kept in gapComments.
+// list, but it may be metadata or an ;assert: it is kept in gapComments. A
+// remark behind the label on the label's own line is not a comment line.
 func (p *parser) skipLabelGap() {
-	if p.nextToken.typ == tokComment {
+	if p.nextToken.typ == tokComment && p.gapAtLineStart {
 		p.readMetadata(p.nextToken.val)
 		p.gapComments = append(p.gapComments, sourceLine{line: p.line, typ: lineComment, comment: p.nextToken.val})
+	}
+	if p.nextToken.typ == tokNewline {
+		p.gapAtLineStart = true
 	}
 	p.next()
 }
@@ -283,6 +289,7 @@ func parseLabels(p *parser) parseStateFn {
 
 	p.symbols[p.nextToken.val] = p.line
 	p.currentLine.labels = append(p.currentLine.labels, p.nextToken.val)
+	p.gapAtLineStart = false
 	nextToken := p.next()
 
 	if nextToken.typ != tokText {
